@@ -10,10 +10,8 @@ Inductive c04case :=
        HLiteral: w is the text between the quotes of a literal.  Then the row is read back, and searched with
        an equality filter, once with the value as a parameter and once with a literal *)
 | CInt (h : how) (z : Z)
-| CFlt (h : how) (bits : Z) (text_bits : Z) (display_exact : bool)
-    (* binary64 by bit pattern; text_bits = the value of the decimal literal text the harness uses for it;
-       display_exact = Rust's Display text of the value (what query.rs writes into the statement for a Float
-       literal), read the way SQL reads a numeric literal, denotes the same number *)
+| CFlt (h : how) (bits : Z) (text_bits : Z)
+    (* binary64 by bit pattern; text_bits = the value of the decimal literal text the harness uses for it *)
 | CBool (h : how) (b : bool)
 | CDefault (m : emodel) (q : query)
     (* the statement compiled for q under a model whose String defaults are arbitrary text *)
@@ -80,33 +78,14 @@ Fixpoint skeleton (l : str) (inside : bool) : str :=
       else if N.eqb c 39 then 39%N :: skeleton t true else c :: skeleton t false
   end.
 
-(* quotes inside a spliced default come in pairs ('' is SQL's escaped quote): the literal is closed where it
-   should be and the engine accepts the statement; otherwise what follows the default is read as SQL and
-   whether the engine accepts it is not predicted (the harness then reports 2 instead of the outcome) *)
-Fixpoint quotes_paired (s : str) : bool :=
-  match s with
-  | [] => true
-  | 39%N :: 39%N :: t => quotes_paired t
-  | 39%N :: _ => false
-  | _ :: t => quotes_paired t
-  end.
-Definition default_quotes_paired (m : emodel) (q : query) : bool :=
-  forallb (fun f => match ref_field q (fl_ref f) with
-                    | Some i => match field_def m i with
-                                | Some fd => match fd_default fd with Some (VStr s) => quotes_paired s | _ => true end
-                                | None => true
-                                end
-                    | None => true
-                    end) (q_filters q).
-
 (* ---- what the model says the implementation does ---- *)
 Definition run_C04 (c : c04case) : list Z :=
   match c with
   | CStr h w => run_str h w
   | CInt h z => [0; z; 1; 1; 1]
-  | CFlt h bits tb de => [0; match h with HParam => bits | HLiteral => tb end; 1; zb de; 1]
+  | CFlt h bits tb => [0; match h with HParam => bits | HLiteral => tb end; 1; 1; 1]
   | CBool h b => [0; zb b; 1; 1; 1]
-  | CDefault m q => (if default_quotes_paired m q then 1 else 2) :: enc_str (sql_text m q) ++ enc_str (sql_text (neutral_model m) q)
+  | CDefault m q => 1 :: enc_str (sql_text m q) ++ enc_str (sql_text (neutral_model m) q)
   | CShape m q => [zb (str_eqb (sql_text m q) (sql_text m (neutral_query q)))]
   end.
 
@@ -140,7 +119,7 @@ Definition spec_C04 (c : c04case) (obs : list Z) : bool :=
       | None, _ => true
       end
   | CInt h z => zlist_eqb obs [0; z; 1; 1; 1]
-  | CFlt h bits tb de => Z.eqb bits tb && zlist_eqb obs [0; bits; 1; 1; 1]
+  | CFlt h bits tb => Z.eqb bits tb && zlist_eqb obs [0; bits; 1; 1; 1]
   | CBool h b => zlist_eqb obs [0; zb b; 1; 1; 1]
   | CDefault m q =>
       (* the text of a default value does not change the structure of the statement (compared with the statement
@@ -159,42 +138,11 @@ Definition spec_C04 (c : c04case) (obs : list Z) : bool :=
       (* no character of a String literal reaches the statement *)
   end.
 
-(* ---- classes of inputs on which the unchanged code is known to violate the property ---- *)
-Definition has_other_escape (l : str) : bool :=
-  match lex_lit l with Some ts => negb (only_quote_escapes ts) | None => false end.
-Definition cls (b : bool) (k : Z) : list Z := if b then [k] else [].
-(* 2: a filter on a String field whose default contains a quote *)
-Definition k_spliced (m : emodel) (q : query) : bool :=
-  existsb (fun f => match ref_field q (fl_ref f) with
-                    | Some i => match field_def m i with
-                                | Some fd => match fd_default fd with Some (VStr s) => has_quote s | _ => false end
-                                | None => false
-                                end
-                    | None => false
-                    end) (q_filters q).
-(* 3: a variable named like a string literal that got a parameter slot earlier (add_param) *)
-Definition query_vars (q : query) : list str :=
-  flat_map (fun o => match o with OVar n => [n] | _ => [] end)
-           (map fl_val (q_filters q) ++ paging_values (q_paging q) ++ [q_first q] ++
-            match q_skip q with Some o => [o] | None => [] end).
-Definition k_capture (m : emodel) (q : query) : bool :=
-  let vo := fst (compile m q) in
-  existsb (fun n => match find (fun p : pentry => str_eqb n (snd p)) vo with
-                    | Some p => fst p
-                    | None => false
-                    end) (query_vars q).
-
-Definition known_C04 (c : c04case) : list Z :=
-  match c with
-  | CStr h w => cls (has_other_escape (literal_text h w)) 1
-      (* 1: a literal with an escape other than the escaped quote is not decoded *)
-  | CInt _ _ | CBool _ _ => []
-  | CFlt h bits tb de => cls (negb de) 4
-      (* 4: a Float literal in a filter is written with Display: for magnitudes from 2^53 the digits are an integer
-            literal that is not the value *)
-  | CDefault m q => cls (k_spliced m q) 2
-  | CShape m q => cls (k_capture m q || k_capture m (neutral_query q)) 3
-  end.
+(* ---- classes of inputs on which the code is known to violate the property ----
+   none is left: the four classes found on the original tree were repaired in /repo
+   (1 literal escapes: cdaba75, 2 String default written into the filter SQL: 936f709,
+    3 variable captured by a literal: e64e320, 4 Float literal written with Display: 043e710) *)
+Definition known_C04 (c : c04case) : list Z := [].
 
 Definition eval_C04 (c : c04case) (obs : list Z) : list Z :=
   [zb (zlist_eqb (run_C04 c) obs); zb (spec_C04 c obs)] ++ known_C04 c.
